@@ -70,8 +70,10 @@ if ok:
     if 'rebased_patch' in res:
         open(os.path.join(dst, 'patch.diff'), 'w').write(res.pop('rebased_patch'))
     else:
-        shutil.copy(patch, os.path.join(dst, 'patch.diff'))
-    shutil.copy(demo, os.path.join(dst, 'demo.py'))
+        if os.path.abspath(patch) != os.path.abspath(os.path.join(dst, 'patch.diff')):
+            shutil.copy(patch, os.path.join(dst, 'patch.diff'))
+    if os.path.abspath(demo) != os.path.abspath(os.path.join(dst, 'demo.py')):
+        shutil.copy(demo, os.path.join(dst, 'demo.py'))
     meta = {}
     mp = os.path.join(src, 'meta.json')
     if os.path.exists(mp):
@@ -79,9 +81,16 @@ if ok:
             meta = json.load(open(mp))
         except Exception:
             meta = {'raw': open(mp).read()[:2000]}
+    if not run_tests and meta.get('what_was_run') and 'skipped' not in meta['what_was_run']:
+        keep = meta['what_was_run']          # a re-check: the suite result was recorded when the seed was first confirmed
+    else:
+        keep = None
     meta.update({'property': prop, 'what_was_run': 'tools/verify_seed.py: demo on unchanged tree (PASS), demo with patch (FAIL), '
                  'pinned baseline suite with patch (%s), ./check %s --tier quick against the patched worktree' % (res.get('tests', 'skipped'), prop),
                  'check_result': {k: res.get(k) for k in ('check_rc', 'caught', 'caught_with_input', 'check_lines')}})
+    if keep:
+        meta['what_was_run'] = keep
+        meta['rechecked'] = 'check re-run against the final machinery (tools/reverify_all.sh)'
     json.dump(meta, open(os.path.join(dst, 'meta.json'), 'w'), indent=1)
 res.pop('rebased_patch', None)
 res['check_lines'] = [l[:160] for l in res.get('check_lines', [])]
